@@ -54,7 +54,7 @@ def batch_all(ctx: Ctx):
                 yield ctx.ob('C17.BATCH-ALL', True, fn, lp, f'loop over `{batch}` has no early exit')
 
 
-@rule('C17.RELEASE-DELETES', ['C17'], min_instances=2)
+@rule('C17.RELEASE-DELETES', ['C17', 'C02', 'C01'], min_instances=2)
 def release_deletes(ctx: Ctx):
     """remove_results deletes results_map[task] for each present task of the batch."""
     for fn in roles.impls(ctx, roles.RUNNER, 'remove_results', minimum=2):
@@ -183,7 +183,7 @@ def _completion_parts(ctx: Ctx):
     return st, sf, fn, sn, tparam
 
 
-@rule('C17.RELEASABLE-SET', ['C17'])
+@rule('C17.RELEASABLE-SET', ['C17', 'C02', 'C01'])
 def releasable_set(ctx: Ctx):
     """The completion method returns exactly the dependencies (and the task itself) that no
     unfinished task depends on any more - independent of success."""
